@@ -201,7 +201,7 @@ func recordMain(args []string) {
 	n := fs.Int("n", 3000, "number of random events")
 	seed := fs.Int64("seed", 1, "seed")
 	corpus := fs.String("corpus", "", "testdata directory of the repository (its expressions are recorded too)")
-	mode := fs.String("mode", "general", "general | sort | unicode | mutate")
+	mode := fs.String("mode", "general", "general | sort | unicode | mutate | typed")
 	maxLen := fs.Int("maxlen", 200, "largest array in sort mode")
 	fs.Parse(args)
 	f, err := os.Create(*outPath)
@@ -315,6 +315,18 @@ func recordMain(args []string) {
 				"starts_with(s, "+q(c)+")", "ends_with(s, t)", "contains(s, "+q(c)+")", "trim(s, "+q(c)+")", "sort_by(a, &@)", "s == t", "[s, t] | sort(@)",
 				"replace(s, "+q(c)+", "+q(c+c)+", `"+k+"`)", "a[*].length(@)", "map(&reverse(@), a)")
 			emit(fmt.Sprintf("uni%d.%d", *seed, i), e, doc)
+		}
+		fmt.Printf("{\"written\":%d,\"skipped\":%d,\"panics\":%d}\n", written, skipped, panics)
+		return
+	}
+	if *mode == "typed" {
+		// type-directed grower (typed.go): expressions that mean something on the document they are run on
+		tg := &tgen{r: g.r, root: typedSchema()}
+		for i := 0; i < *n; i++ {
+			doc := tg.doc()
+			tg.vars = tg.vars[:0]
+			e, _ := tg.expr(tg.root, 1+g.r.Intn(4))
+			emit(fmt.Sprintf("typ%d.%d", *seed, i), e, doc)
 		}
 		fmt.Printf("{\"written\":%d,\"skipped\":%d,\"panics\":%d}\n", written, skipped, panics)
 		return
